@@ -9,7 +9,7 @@ from vlib.sim import new_loop, SimTransport, provider, Rec, wire, generic_dev, p
 from rsocket.stream_control import StreamControl, MAX_STREAM_ID
 from rsocket.exceptions import RSocketStreamAllocationFailure
 from rsocket.error_codes import ErrorCode
-from rsocket.frame import ErrorFrame, RequestResponseFrame
+from rsocket.frame import ErrorFrame, RequestResponseFrame, PayloadFrame
 from rsocket.frame_builders import (to_request_response_frame, to_request_stream_frame, to_request_channel_frame,
                                     to_fire_and_forget_frame)
 from rsocket.helpers import create_future
@@ -278,6 +278,76 @@ def c_reject_live_id(k1: int, k2: int, i1: int, i2: int) -> str:
             if k2 != 3 and target not in table:
                 return 'accepted-request-not-registered'
         if mine.done():
+            return 'own-request-disturbed'
+        return generic_dev(loop, s)
+
+
+def c_reject_live_id_fragmented(k2: int, when: int, tid: int) -> str:
+    """
+    The reuse condition is judged when the request is COMPLETE: a request (4 types) that arrives in two fragments
+    (FOLLOWS, then the closing PAYLOAD) on id `target` while the receiver opens a request of its own - which its
+    allocator numbers 2 - before the first fragment (when=0), between the two fragments (when=1) or after the
+    last one (when=2).  If the id is live when the last fragment arrives the request is answered ERROR(REJECTED)
+    on that id, does not reach the application and does not replace the receiver's own stream; otherwise it is
+    accepted and the own request then gets the next id.  (seed C13-4)
+
+    pre: 0 <= k2 <= 3 and 0 <= when <= 2 and 0 <= tid <= 1
+    post: _ in ALLOWED
+    """
+    k2 = conc(k2, 0, 3)
+    when = conc(when, 0, 2)
+    target = 2 if conc(tid, 0, 1) == 0 else 4
+    loop = new_loop()
+    with loop:
+        t = SimTransport(loop)
+        s = RSocketServer(t, handler_factory=_H)
+        loop.run_ready()
+        mine = None
+        if when == 0:
+            mine = s.request_response(Payload(b'mine'))
+            loop.run_ready()
+        first = _req(k2, target)
+        first.flags_follows = True
+        t.feed_wire(first)
+        loop.run_ready()
+        if when == 1:
+            mine = s.request_response(Payload(b'mine'))
+            loop.run_ready()
+        table = s._stream_control._streams
+        live = dict(table)
+        n0 = len(t.sent)
+        last = PayloadFrame()
+        last.stream_id = target
+        last.data = b'-tail'
+        last.flags_next = True
+        t.feed_wire(last)
+        loop.run_ready()
+        new = [f for _, f in t.sent[n0:]]
+        collide = target in live
+        stats.note(collide, {'collide': collide, 'k2': k2, 'when': when, 'target': target})
+        errs = [f for f in new if isinstance(f, ErrorFrame)]
+        if collide:
+            if len(errs) != 1 or errs[0].stream_id != target or errs[0].error_code != ErrorCode.REJECTED:
+                return 'live-id-reuse-not-rejected'
+            if table.get(target) is not live[target]:
+                return 'live-stream-replaced'
+            if len(table) != len(live):
+                return 'table-changed-on-rejection'
+        else:
+            if errs:
+                return 'free-id-rejected'
+            if k2 != 3 and target not in table:
+                return 'accepted-request-not-registered'
+            for sid in live:
+                if table.get(sid) is not live[sid]:
+                    return 'other-stream-disturbed'
+        if when == 2:
+            mine = s.request_response(Payload(b'mine'))
+            loop.run_ready()
+            own = [sid for sid, h in table.items() if sid not in live and sid != target]
+            if k2 != 3 and target == 2 and own != [4]:
+                return 'own-request-got-a-live-id'
+        if mine is not None and mine.done():
             return 'own-request-disturbed'
         return generic_dev(loop, s)
 
